@@ -75,6 +75,45 @@ def renderDeliveries (d : List (List Builder.Item)) : List (List String) := d.ma
 
 def implCompletions (impl : Json) : List (List String) := (arr (field impl "completions")).map strList
 
+/-- kind of a rendered middleware event (the canonical strings of `VerifBodyEvents`) -/
+def kindOfRendered (e : String) : Builder.Kind :=
+  if e.startsWith "qd:" then .reqData
+  else if e == "qe:nil" then .reqEnd
+  else if e.startsWith "qe:" then .reqEndErr
+  else if e == "P" then .respStart
+  else if e == "PX" then .respErr
+  else if e.startsWith "pd:" then .respData
+  else if e.startsWith "ps:" then .respEos
+  else if e == "pe:nil" then .respEnd
+  else if e.startsWith "pe:" then .respEndErr
+  else .cancel
+
+/-- the traces the builder model delivers when a `RequestCanceled` is added at any point of the
+event sequence `ref` of the uncancelled session (the cancel goroutine is not ordered with the
+body events) -/
+def cancelOutcomes (ref : List String) (build : Bool) : List (List String) :=
+  let adds := ref.zipIdx.map (fun p => Builder.Op.add (kindOfRendered p.1) p.2)
+  let n := ref.length
+  let arr := ref.toArray
+  (List.range (n + 1)).map fun k =>
+    let ops := adds.take k ++ [Builder.Op.add .cancel n] ++ adds.drop k ++ (if build then [Builder.Op.build] else [])
+    match (Builder.exec (Builder.init true) ops).2 with
+    | [d] => d.map (fun it => if it.id == n then "QC" else arr[it.id]?.getD "?")
+    | _ => ["<not exactly one delivery>"]
+
+def cancelVerdict (impl : Json) (build : Bool) : Verdict :=
+  let ref := (strList (field impl "ref")).filter (· != "Q")
+  let got := (strList (field impl "got")).filter (· != "Q")
+  let completions := nat (field impl "completions")
+  let set := cancelOutcomes ref build
+  -- the property itself: one delivery; nothing recorded after the finishing event; what is
+  -- recorded is what happened before it, in order
+  let cut := (got.takeWhile (· != "QC"))
+  let holds := completions == 1 && (got == ref || (got == cut ++ ["QC"] && ref.take cut.length == cut))
+  { agree := completions == 1 && set.contains got, holds := holds, nontrivial := got != ref,
+    model := toJson set.length, cls := if got == ref then "cancel-too-late" else "cancelled",
+    why := if holds then "" else s!"{completions} deliveries; trace {got}; uncancelled session {ref}" }
+
 def handle : Handler := fun op inp impl =>
   if !(isNull (field impl "panic")) then
     { agree := false, holds := false, why := "panic: " ++ str (field impl "panic") } else
@@ -109,6 +148,8 @@ def handle : Handler := fun op inp impl =>
         model := toJson lins.length,
         why := if okSpec then "" else s!"outcome setup={obsS} after={obsA} is produced by none of the {lins.length} linearisations" }
     | _, _, _ => bad "unparsable slot op"
+  | "cancelrt" => cancelVerdict impl false
+  | "cancelhandler" => cancelVerdict impl true
   | "builder" =>
     match parseBuilderOps 0 (strList (field inp "ops")) with
     | none => bad "unparsable builder op"
